@@ -338,7 +338,7 @@ func TestC10(t *testing.T) {
 		rec.Extra("exhaustive_depth", depth)
 		rec.Extra("alphabet_size", len(alphabet))
 	}
-	ev.Rapid(t, rec, "random", rec.Scale(4000, 300000), func(t *rapid.T) Case {
+	ev.Rapid(t, rec, "random", rec.Scale(4000, 3000000), func(t *rapid.T) Case {
 		c := Case{TTL: rapid.SampledFrom([]int{100, 100, 1, 1800}).Draw(t, "ttl"), Encrypted: rapid.IntRange(0, 3).Draw(t, "enc") == 0}
 		for n := rapid.IntRange(2, 60).Draw(t, "n"); n > 0; n-- {
 			switch k := rapid.IntRange(0, 13).Draw(t, "op"); {
